@@ -163,6 +163,11 @@ func (d *digest) UnmarshalBinary(b []byte) error {
 		return errors.New("crypto/blake2s: invalid hash state size")
 	}
 	b = b[len(magic):]
+	// The size and offset bytes index the digest's buffers: reject values
+	// that MarshalBinary never produces.
+	if size, offset := int(b[10*4]), int(b[10*4+1+BlockSize]); size < 1 || size > Size || offset > BlockSize {
+		return errors.New("crypto/blake2s: invalid hash state")
+	}
 	for i := 0; i < 8; i++ {
 		b, d.h[i] = consumeUint32(b)
 	}
